@@ -12,6 +12,7 @@ from concurrent.futures import ThreadPoolExecutor
 from .. import core
 from .. import families as F
 
+NTOK_EXPR = 40  # size of vtok's TOKENS_EXPR alphabet
 NTOK = 66  # size of vtok's TOKENS alphabet (harness/crates/vtok/src/main.rs)
 
 PACKAGES = ("vrun", "vtok")
@@ -72,13 +73,26 @@ def run(chk):
     res = run_shards([["tokens", str(K), str(i), str(i + 1), "eval"] for i in range(NTOK)])
     tot, outcomes, fails = merge(res)
     chk.part("tokens", K=K, **tot)
+    # second alphabet (operators, keyword operators, division / regular expression, number-dot, line breaks), `a` and `b` bound to values
+    # that tell groupings and evaluation orders apart; one token deeper than it would be affordable for the big alphabet
+    KE = 5 if tier == "thorough" else 4
+    rese = run_shards([["exprtokens", str(KE), str(i), str(i + 1), "eval"] for i in range(NTOK_EXPR)])
+    tote, oute, failse = merge(rese)
+    chk.part("expression_tokens", K=KE, alphabet=NTOK_EXPR, **tote)
+    for k in tot:
+        tot[k] += tote[k]
+    for k, v in oute.items():
+        outcomes[k] = outcomes.get(k, 0) + v
+    fails = fails + failse
     fam = []
     fam += F.ctl_family(4 if tier == "thorough" else 3, ("fn",)) + F.ctl_family(3, ("gen", "async")) + F.pair_family("quick") + F.class_family("quick")
     fam += F.destr_family("quick") + F.gen_family("quick")[::2] + F.scope_family("quick")[::3] + F.op_family("quick")[::7] + F.fold_family(1)[::5] + F.dce_family()
-    fam = list(dict.fromkeys(fam))
+    # every expression kind in every expression / statement context, bare and parenthesised (thorough: two contexts deep)
+    prec = F.prec_family(tier)
+    fam = list(dict.fromkeys(fam + prec))
     res2 = run_shards([["file", p] for p in write_programs("fam", fam)])
     t2, o2, f2 = merge(res2)
-    chk.part("family_programs", programs=len(fam), **t2)
+    chk.part("family_programs", programs=len(fam), of_which_prec=len(prec), **t2)
     shortest = sorted(fam, key=lambda s: (len(s), s))[: (2000 if tier == "thorough" else 400)]
     res3 = run_shards([["file", p, "mutate"] for p in write_programs("mut", shortest)])
     t3, o3, f3 = merge(res3)
@@ -92,10 +106,11 @@ def run(chk):
             traces_validated_against_impl=accepted + tot["evaluated"] + t2["evaluated"], distinct_nontrivial=accepted)
     chk.cov["distinct_outcomes"] = len(outcomes)
     chk.cov["outcome_classes_of_accepted_texts"] = outcomes
-    chk.cov["rule"] = ("E1: all strings of <= %d tokens over the 66-token alphabet + all programs of the listed families + all single token-level mutations of the "
+    chk.cov["rule"] = ("E1: all strings of <= %d tokens over the 66-token alphabet + all strings of <= %d tokens over the 40-token expression alphabet (identifiers bound) + all programs of the listed families + all single token-level mutations of the "
                        "shortest programs; states = texts parsed, transitions = parses + evaluations (text and printed form); non-trivial = accepted by the parser "
-                       "(and therefore printed, re-parsed twice and evaluated twice)" % K)
+                       "(and therefore printed, re-parsed twice and evaluated twice)" % (K, KE))
     chk.sample({"tokens": "a ?. ( )"})
+    chk.sample({"expression_tokens": "a - -- b"})
     chk.sample({"program": fam[len(fam) // 3][:200]})
     chk.sample({"mutant_of": shortest[0][:200]})
     chk.assumptions += ["token alphabet of 66 tokens (three numeric literal kinds: small integer, fraction, integer beyond i32; BigInt), separated by single spaces", "AST equality is judged through the printed form (print(parse(p)) == p three times), not through PartialEq on spans"]
